@@ -20,7 +20,10 @@ void harness(void) {
   g_z.calls = 0; g_z.sum = 0; g_z.ovf = false; g_z.zero = false; g_z.ordered = true; g_z.contig = true;
   g_z.first = NULL; g_z.end = NULL;
   g_zc.slots = NULL; g_zc.pairs = NULL; g_zc.n = 0; g_zc.hdr = 0;
-#if defined(SER_KIND_INT)
+#if defined(SER_KIND_ANY)
+  /* any item (cbor_serialize_alloc never looks inside: size and serialization are the induction-hypothesis twins) */
+  cbor_item_t *it = mk_any();
+#elif defined(SER_KIND_INT)
   cbor_item_t *it = mk_int();
 #elif defined(SER_KIND_FLOAT_CTRL)
   cbor_item_t *it = mk_float_ctrl();
@@ -66,7 +69,31 @@ void harness(void) {
   g_zc.slots = &it->metadata.tag_metadata.tagged_item; g_zc.n = 1;
   g_zc.hdr = 1 + spec_shortest_argbytes(it->metadata.tag_metadata.value);
 #endif
-#if defined(SER_ALLOC)
+#if defined(SER_ALLOC_ANY)
+  /* cbor_serialize_alloc for an item of any kind, lemma style: the size and the serialization of the item are the hereditary
+   * contracts (twins) that the per-kind proofs establish - size == USIZE(item), serialization == USIZE(item) when it fits */
+  g_alloc_forbidden = false;
+  unsigned char **pbuf = mk_block(sizeof(*pbuf));
+  size_t *psize = nondet_bool() ? NULL : mk_block(sizeof(*psize));
+  size_t live0 = g_live;
+  size_t r = cbor_serialize_alloc(it, pbuf, psize);
+  if (r == 0) {
+    __CPROVER_assert(*pbuf == NULL && (psize == NULL || *psize == 0), "C06,C07: failure: null buffer, size 0");
+    __CPROVER_assert(g_live == live0, "C06: failure leaves nothing allocated");
+    __CPROVER_assert(USIZE(it) == 0 || g_refused, "C07,C06: failure only when the size is not representable or the allocator refused");
+  } else {
+    __CPROVER_assert(r == USIZE(it) && (psize == NULL || *psize == r), "C07: the returned length is the serialized size of the item");
+    __CPROVER_assert(g_malloc_calls == 1 && g_last_req == r && g_live == live0 + 1 && *pbuf != NULL,
+                     "C07,C13: one block of exactly that size is requested and handed to the caller");
+    __CPROVER_assert(g_z.calls == 2 && g_z.end == *pbuf + r, "C07: the item is serialized once, into exactly that block");
+  }
+  __CPROVER_assert(g_realloc_calls == 0 && g_free_calls <= 1, "C13: no other allocator traffic");
+  __CPROVER_assert(r != 0, "COVER serialize_alloc failed");
+  __CPROVER_assert(!(r == 0 && g_refused), "COVER allocation refused");
+  __CPROVER_assert(r == 0, "COVER serialize_alloc succeeded");
+  __CPROVER_assert(!(r != 0 && psize == NULL), "COVER size pointer omitted");
+  return;
+#elif defined(SER_ALLOC)
   /* cbor_serialize_alloc: every allocator request may be refused */
   g_alloc_forbidden = false;
   unsigned char **pbuf = mk_block(sizeof(*pbuf));
